@@ -181,6 +181,11 @@ def main():
     a, rep, replay = parse(PROP)
     rep.assumptions = ["damping time and period are evaluated in Python from the specification's rational eigenvalues",
                        "the feedback matrix of the measured clause is recomputed with numpy from data the harness preprocesses and PCA-reduces itself"]
+    if replay is not None and replay["scenario"].get("kind") == "lifecycle_path":
+        from .. import liferun as _lr
+        _lr.replay_path(rep, replay["scenario"], TAGS)
+        rep.extra["distinct_nontrivial"] = 2
+        return common.finish(rep)
     if replay is not None and replay["scenario"].get("kind") == "scenario":
         out = eval_world(replay["scenario"]["index"], replay["scenario"]["scenario"])
         for prop, clause, msg in out["found"]:
